@@ -45,6 +45,14 @@ pub struct Scn {
     pub seed: u64,
     pub use_keys: bool,
     pub os_rng: bool,
+    /// about half of the invocations type their passwords at the prompt on a controlling terminal
+    #[serde(default)]
+    pub typed_pass: bool,
+}
+
+fn typed(s: &Scn, k: usize) -> bool {
+    let mut t = s.seed ^ (k as u64).wrapping_mul(0x7479_7065);
+    s.typed_pass && crate::rng::splitmix(&mut t) % 2 == 0
 }
 
 pub struct B3;
@@ -135,7 +143,9 @@ impl Family for B3 {
             let fault = if !invalid && rng.chance(1, 8) { Some((rng.below(3) as u32, *rng.pick(&[28i32, 5, 27]), *rng.pick(&[0u32, 1, 10, 100]))) } else { None };
             gens.push(Gen { name, password: gen_cli_password(rng), invalid, fault });
         }
-        Scn { initial, gens, seed: rng.next_u64(), use_keys: rng.chance(1, 2), os_rng: rng.chance(1, 4) }
+        let mut scn = Scn { initial, gens, seed: rng.next_u64(), use_keys: rng.chance(1, 2), os_rng: rng.chance(1, 4), typed_pass: false };
+        scn.typed_pass = (scn.seed >> 5) & 3 == 1; // derived, not drawn
+        scn
     }
     fn execute(&self, s: &Scn) -> RunOut {
         let mut out = RunOut::default();
@@ -204,6 +214,7 @@ impl Family for B3 {
             let before = sb.read(f);
             let mut inv = Invocation::new(&["key", "generate", "-o", f, "--env-pass"]).env("KESTREL_PASSWORD", &g.password);
             inv.stdin = Stdin::Pipe(format!("{}\n", g.name).into_bytes());
+            inv.pass_via_tty = typed(s, k);
             inv.entropy_seed = if s.os_rng { None } else { Some(s.seed ^ (k as u64 + 1) * 0x9E37) };
             if let Some((kth, errno, cap)) = g.fault {
                 let mut plan = if errno == 27 { format!("f={}:r:{}:E5", f, kth) } else { format!("f={}:w:{}:E{}", f, kth, errno) };
@@ -321,8 +332,12 @@ impl Family for B3 {
             if s.use_keys && known.len() >= 2 {
                 let (from, to) = (&known[0], &known[known.len() - 1]);
                 sb.write("msg.txt", b"keyring still works");
-                let enc = run(&sb, &Invocation::new(&["encrypt", "msg.txt", "-t", &to.0, "-f", &from.0, "-o", "msg.ktl", "-k", f, "--env-pass"]).env("KESTREL_PASSWORD", &from.1));
-                let dec = run(&sb, &Invocation::new(&["decrypt", "msg.ktl", "-t", &to.0, "-o", "msg.out", "-k", f, "--env-pass"]).env("KESTREL_PASSWORD", &to.1));
+                let mut enc_inv = Invocation::new(&["encrypt", "msg.txt", "-t", &to.0, "-f", &from.0, "-o", "msg.ktl", "-k", f, "--env-pass"]).env("KESTREL_PASSWORD", &from.1);
+                let mut dec_inv = Invocation::new(&["decrypt", "msg.ktl", "-t", &to.0, "-o", "msg.out", "-k", f, "--env-pass"]).env("KESTREL_PASSWORD", &to.1);
+                enc_inv.pass_via_tty = typed(s, 1000);
+                dec_inv.pass_via_tty = typed(s, 1001);
+                let enc = run(&sb, &enc_inv);
+                let dec = run(&sb, &dec_inv);
                 if !s.os_rng {
                     th = th.rotate_left(3) ^ enc.digest() ^ dec.digest().rotate_left(1);
                 }
@@ -351,6 +366,11 @@ impl Family for B3 {
                 t.gens.remove(i);
                 c.push(t);
             }
+        }
+        if s.typed_pass {
+            let mut t = s.clone();
+            t.typed_pass = false;
+            c.push(t);
         }
         if s.use_keys {
             let mut t = s.clone();
